@@ -21,6 +21,7 @@ import (
 	"strconv"
 	"strings"
 	"sync"
+	"unicode/utf8"
 
 	"verif/harness/internal/proto"
 )
@@ -142,3 +143,5 @@ func main() {
 		panic(err)
 	}
 }
+
+func validUTF8(s string) bool { return utf8.ValidString(s) }
